@@ -6,6 +6,16 @@ TP = "traces_parser.py"
 PF = "trace_handlers/perf.py"
 TR = "trace_handlers/trace.py"
 MUTANTS = [
+    F("C14", "all log records decoded and declared before the first is yielded", "kd_buf_parser.py",
+      "        for event in log_events:\n            log_event = OsLogEvent.from_raw_log_event(event, log_strings)\n"
+      "            if log_event.process and log_event.thread_identifier:\n"
+      "                self.threads_pids[log_event.thread_identifier] = log_event.process_identifier\n"
+      "                self.pids_names[log_event.process_identifier] = log_event.process\n            yield log_event\n",
+      "        decoded = [OsLogEvent.from_raw_log_event(event, log_strings) for event in log_events]\n"
+      "        for log_event in decoded:\n"
+      "            if log_event.process and log_event.thread_identifier:\n"
+      "                self.threads_pids[log_event.thread_identifier] = log_event.process_identifier\n"
+      "                self.pids_names[log_event.process_identifier] = log_event.process\n        yield from decoded\n", "R4"),
     N("C14", "private helper _format_kevent renamed", "pykdebugparser.py", "_format_kevent", "_render_kevent", all_occurrences=True),
     N("C14", "private helper _format_process renamed", "pykdebugparser.py", "_format_process", "_render_process", all_occurrences=True),
     F("C14", "a piece testing two switches", P,
